@@ -7,7 +7,7 @@ from pyvc import library as L
 from pyvc.values import PyExc, Unsupported, to_real, to_int
 from contracts.c01 import build_model, TapeFiles, _same, _get, SECTION_CONTENT
 
-FUNCS = ['t2data.t2data.convert_to_TOUGH2', 't2data.t2data.convert_to_AUTOUGH2', 't2data.t2data.convert_AUTOUGH2_parameters_to_TOUGH2', 't2data.t2data.convert_TOUGH2_parameters_to_AUTOUGH2',
+FUNCS = ['t2data.t2data.rocks_json', 't2data.t2data.convert_to_TOUGH2', 't2data.t2data.convert_to_AUTOUGH2', 't2data.t2data.convert_AUTOUGH2_parameters_to_TOUGH2', 't2data.t2data.convert_TOUGH2_parameters_to_AUTOUGH2',
          't2data.t2data.convert_AUTOUGH2_generators_to_TOUGH2', 't2data.t2data.convert_short_to_history', 't2data.t2data.convert_history_to_short', 't2data.t2data.write', 't2data.t2data.read']
 
 
@@ -128,10 +128,78 @@ def p_convert_roundtrip(e, arg):
     e.explore(prog, 'convert_roundtrip')
 
 
-PROGRAMS = [('p_convert_roundtrip', ('AUTOUGH2', False)), ('p_convert_roundtrip', ('AUTOUGH2', True)), ('p_convert_roundtrip', ('TOUGH2', False))]
+def p_rocks_json(e, arg):
+    """rocks_json on the grid of a real rectangular geometry with two rock types: every non-boundary block is in exactly one
+    rock type's cell list - that of its own rock type - under its cell index, boundary blocks (volume <= 0 or >= atmos_volume) in none."""
+    atm, coords = arg
+    tag = '[atm%d,%s]' % (atm, coords)
+    from contracts.c04 import build_rect, _valid
+    def prog(e):
+        md, mg = e.load_module('t2data').globals, e.load_module('t2grids').globals
+        geo, S = build_rect(e, 2, 1, 2, atm, 0, 1)
+        for d in S['dx'] + S['dy'] + S['dz']:
+            e.assume(z3.And(d <= 1000000))
+        e.assume(geo.fields['atmosphere_volume'] >= 10 ** 25)          # atmosphere blocks are boundary blocks (huge volume)
+        dat = e.call(md['t2data'], [])
+        grid = e.call(e.getattr(e.call(mg['t2grid'], []), 'fromgeo'), [geo])
+        dat.fields['grid'] = grid
+        rt2 = e.call(mg['rocktype'], ['rock2', 0, e.sym_real('dens2'), e.sym_real('por2'), [e.sym_real('k2_%d' % j) for j in range(3)], e.sym_real('cond2'), e.sym_real('sh2')])
+        e.call(e.getattr(grid, 'add_rocktype'), [rt2])
+        bl = grid.fields['blocklist']
+        for b in bl[1::2]:
+            b.fields['rocktype'] = rt2
+        # one underground block turned into a boundary block of symbolic volume (active, zero or huge decides on the path)
+        bl[-1].fields['volume'] = e.sym_real('bvol')
+        atmos_volume = z3.RealVal(10) ** 25 if False else 10 ** 25
+        try:
+            js = e.call(e.getattr(dat, 'rocks_json'), [geo, atmos_volume, coords])
+        except PyExc as ex:
+            e.fail('post:rocks_json_completes' + tag, 'raises %s: %s' % (ex.cls, ex.msg)); return
+        types = js['rock']['types']
+        e.prove([t['name'] for t in types] == [r.fields['name'] for r in grid.fields['rocktypelist']] and all(len(t['permeability']) == (3 if coords == 'xyz' else 2) for t in types),
+                'post:one_entry_per_rock_type_in_order' + tag)
+        natm = {0: 1, 1: 2, 2: 0}[atm]
+        ok, why = True, ''
+        for k, nm in enumerate(geo.fields['block_name_list']):
+            b = grid.fields['block'][nm]
+            idx = k - natm
+            where = [t['name'] for t in types if idx in t['cells']]
+            count = sum(t['cells'].count(idx) for t in types)
+            active = z3.And(to_real(b.fields['volume']) > 0, to_real(b.fields['volume']) < atmos_volume)
+            if count == 0:
+                if not _valid(e, z3.Not(active)):
+                    ok, why = False, 'active block %r is in no cell list' % nm
+            elif count == 1:
+                if where != [b.fields['rocktype'].fields['name']] or not _valid(e, active):
+                    ok, why = False, 'block %r (index %d) is in the cell list of %r, its rock type is %r' % (nm, idx, where, b.fields['rocktype'].fields['name'])
+            else:
+                ok, why = False, 'block %r appears %d times' % (nm, count)
+        if ok:
+            e.prove(True, 'post:every_non_boundary_block_in_exactly_the_cell_list_of_its_rock_type' + tag)
+        else:
+            e.fail('post:every_non_boundary_block_in_exactly_the_cell_list_of_its_rock_type' + tag, why)
+        e.prove(all(0 <= i < len(geo.fields['block_name_list']) - natm for t in types for i in t['cells']), 'post:cell_indices_are_underground_block_indices' + tag)
+    e.explore(prog, 'rocks_json')
+
+
+PROGRAMS = [('p_rocks_json', (a, c)) for a in (0, 1, 2) for c in ('xyz', 'rz')] + [('p_convert_roundtrip', ('AUTOUGH2', False)), ('p_convert_roundtrip', ('AUTOUGH2', True)), ('p_convert_roundtrip', ('TOUGH2', False))]
 
 
 def replay(obname, model, result):
+    if result['program'] == 'p_rocks_json':
+        atm, coords = result['arg']
+        m = model or {}
+        v = m.get('bvol'); bvol = (float(int(v['num'])) / float(int(v['den']))) if isinstance(v, dict) else 5.
+        return ("from mulgrids import *\nfrom t2data import *\nfrom t2grids import *\n"
+                "g = mulgrid().rectangular([10., 25.], [15.], [4., 6.], atmos_type=%d)\nd = t2data(); d.grid = t2grid().fromgeo(g)\n"
+                "r2 = rocktype('rock2'); d.grid.add_rocktype(r2)\n"
+                "for b in d.grid.blocklist[1::2]: b.rocktype = r2\n"
+                "d.grid.blocklist[-1].volume = %r\njs = d.rocks_json(g, 1.e25, %r)\nna = g.num_atmosphere_blocks\nok, detail = True, ''\n"
+                "for k, n in enumerate(g.block_name_list):\n"
+                "    b = d.grid.block[n]; idx = k - na\n"
+                "    where = [t['name'] for t in js['rock']['types'] for i in t['cells'] if i == idx]\n"
+                "    want = [b.rocktype.name] if 0. < b.volume < 1.e25 else []\n"
+                "    if where != want: ok, detail = False, 'block %%r index %%d in %%r, want %%r' %% (n, idx, where, want)\n") % (atm, bvol, coords)
     if result['program'] != 'p_convert_roundtrip':
         return None
     return ("from contracts.c20_native import native_convert_roundtrip\nok, detail = native_convert_roundtrip(%r, %r, %r)\n") % (tuple(result['arg']), model or {}, obname.split('[')[0])
